@@ -116,26 +116,26 @@ HandleZRLE (rfbClient* client, int rx, int ry, int rw, int rh)
 	remaining = rfbClientSwap32IfLE(header.length);
 
 	/* Need to initialize the decompressor state. */
-	client->decompStream.next_in   = ( Bytef * )client->buffer;
-	client->decompStream.avail_in  = 0;
-	client->decompStream.next_out  = ( Bytef * )client->raw_buffer;
-	client->decompStream.avail_out = client->raw_buffer_size;
-	client->decompStream.data_type = Z_BINARY;
+	client->zrleStream.next_in   = ( Bytef * )client->buffer;
+	client->zrleStream.avail_in  = 0;
+	client->zrleStream.next_out  = ( Bytef * )client->raw_buffer;
+	client->zrleStream.avail_out = client->raw_buffer_size;
+	client->zrleStream.data_type = Z_BINARY;
 
 	/* Initialize the decompression stream structures on the first invocation. */
-	if ( client->decompStreamInited == FALSE ) {
+	if ( client->zrleStreamInited == FALSE ) {
 
-		inflateResult = inflateInit( &client->decompStream );
+		inflateResult = inflateInit( &client->zrleStream );
 
 		if ( inflateResult != Z_OK ) {
 			rfbClientLog(
 					"inflateInit returned error: %d, msg: %s\n",
 					inflateResult,
-					client->decompStream.msg);
+					client->zrleStream.msg);
 			return FALSE;
 		}
 
-		client->decompStreamInited = TRUE;
+		client->zrleStreamInited = TRUE;
 
 	}
 
@@ -158,11 +158,11 @@ HandleZRLE (rfbClient* client, int rx, int ry, int rw, int rh)
 		if (!ReadFromRFBServer(client, client->buffer,toRead))
 			return FALSE;
 
-		client->decompStream.next_in  = ( Bytef * )client->buffer;
-		client->decompStream.avail_in = toRead;
+		client->zrleStream.next_in  = ( Bytef * )client->buffer;
+		client->zrleStream.avail_in = toRead;
 
 		/* Need to uncompress buffer full. */
-		inflateResult = inflate( &client->decompStream, Z_SYNC_FLUSH );
+		inflateResult = inflate( &client->zrleStream, Z_SYNC_FLUSH );
 
 		/* We never supply a dictionary for compression. */
 		if ( inflateResult == Z_NEED_DICT ) {
@@ -173,15 +173,15 @@ HandleZRLE (rfbClient* client, int rx, int ry, int rw, int rh)
 			rfbClientLog(
 					"zlib inflate returned error: %d, msg: %s\n",
 					inflateResult,
-					client->decompStream.msg);
+					client->zrleStream.msg);
 			return FALSE;
 		}
 
 		/* Result buffer allocated to be at least large enough.  We should
 		 * never run out of space!
 		 */
-		if (( client->decompStream.avail_in > 0 ) &&
-				( client->decompStream.avail_out <= 0 )) {
+		if (( client->zrleStream.avail_in > 0 ) &&
+				( client->zrleStream.avail_out <= 0 )) {
 			rfbClientLog("zlib inflate ran out of space!\n");
 			return FALSE;
 		}
@@ -194,7 +194,7 @@ HandleZRLE (rfbClient* client, int rx, int ry, int rw, int rh)
 		char* buf=client->raw_buffer;
 		int i,j;
 
-		remaining = client->raw_buffer_size-client->decompStream.avail_out;
+		remaining = client->raw_buffer_size-client->zrleStream.avail_out;
 
 		for(j=0; j<rh; j+=rfbZRLETileHeight)
 			for(i=0; i<rw; i+=rfbZRLETileWidth) {
@@ -217,7 +217,7 @@ return TRUE;
 		rfbClientLog(
 				"zlib inflate returned error: %d, msg: %s\n",
 				inflateResult,
-				client->decompStream.msg);
+				client->zrleStream.msg);
 		return FALSE;
 
 	}
